@@ -41,7 +41,59 @@ def run(tier):
     q = tier == 'quick'
     rng = random.Random(core.mix(ck.seed, 'c05'))
     F.run_field_cases(ck, rng, 20000 if q else 1000000, mk_cfg)
+    big_array_cases(ck, rng, 1 if q else 6)
     return ck.finish(min_nontrivial=1000)
+
+
+def big_array_cases(ck, rng, reps):
+    """Arrays longer than the part a loader may preallocate from the declared size (1 MiB / sizeof(element)): an offending element far behind that
+    limit must still keep its slot and leave every later element in place."""
+    exe = c03.build_req('asan')
+    lines, meta = [], {}
+    k = 0
+    for rep in range(reps):
+        for arch in ('json', 'msgpack'):
+            for typ, n in (('v_str', 32768 + 300), ('v_i64', 131072 + 300), ('v_u16', 524288 + 300)):
+                pos = n - rng.randrange(20, 250)
+                if typ == 'v_str':
+                    items = [('s', 'e%d' % i) for i in range(n)]
+                    want = [F.hs('e%d' % i) for i in range(n)]
+                    items[pos], want[pos] = ('i', 7), F.hs('')
+                elif typ == 'v_i64':
+                    items = [('i', i * 3 - 7) for i in range(n)]
+                    want = [i * 3 - 7 for i in range(n)]
+                    items[pos], want[pos] = ('s', 'zz'), 0
+                else:
+                    items = [('i', i % 65536) for i in range(n)]
+                    want = [i % 65536 for i in range(n)]
+                    items[pos], want[pos] = ('i', 70000 + rng.randrange(1000)), 0
+                doc = c03.render(arch, ('o', [('big', ('a', items)), ('after', ('i', 5))]), None, 0)
+                cid = 'big%d' % k
+                k += 1
+                src = rng.choice(['mem', 'sstream'])
+                lines.append('op=run id=%s arch=%s doc=%s prog=G:%s:%s;G:%s:i32 mis=skip ovf=skip src=%s' % (cid, arch, doc.hex(), b'big'.hex(), typ, b'after'.hex(), src))
+                meta[cid] = (arch, typ, n, pos, want, src)
+    by, crashes = core.run_cases(exe, lines, 'asan')
+    for ln, key, err, rc in crashes:
+        ck.violation('big-array/crash/%s' % key, {'driver': 'drv_req', 'variant': 'asan', 'case': ln[:3000] + '...', 'stderr': err[-1500:]}, 'process died: ' + key)
+    for cid, e in by.items():
+        arch, typ, n, pos, want, src = meta[cid]
+        ck.case(('big-array', arch, typ, n, pos, src), nontrivial=True)
+        wit = {'driver': 'drv_req', 'variant': 'asan', 'case': 'array of %d elements (%s, %s) with an offending element at index %d, followed by member after=5; regenerate with checks/c05.py big_array_cases' % (n, arch, typ, pos)}
+        if 'error' in e or e['res']['out'] != 'ok' or len(e['log']) != 2:
+            ck.violation('big-array/%s/%s/not-loaded' % (arch, typ), dict(wit, event=str(e)[:600]), 'long array with one offending element was not loaded: %s' % str(e.get('res'))[:200])
+            continue
+        got = e['log'][0].get('v')
+        if not isinstance(got, list) or len(got) != n:
+            ck.violation('big-array/%s/%s/length' % (arch, typ), wit, 'loaded %s elements, document has %d' % (len(got) if isinstance(got, list) else got, n))
+            continue
+        bad = [i for i in range(n) if i != pos and got[i] != want[i]]
+        if bad:
+            ck.violation('big-array/%s/%s/neighbours-shifted' % (arch, typ), dict(wit, first_wrong_index=bad[0], got=str(got[bad[0]]), expected=str(want[bad[0]])),
+                         '%d elements after the skipped one at index %d are displaced (first wrong index %d)' % (len(bad), pos, bad[0]))
+        elif e['log'][1] != {'ok': True, 'v': 5}:
+            ck.violation('big-array/%s/%s/member-after' % (arch, typ), wit, 'member after the array misread: %s' % e['log'][1])
+    ck.cov['big_array_cases'] = len(by)
 
 
 def replay(w):
